@@ -36,7 +36,9 @@ pub fn check(ls: &LangSet, s: &str, filler: &str) -> Verdict {
                     if w == "o" {
                         (false, true)
                     } else {
-                        (api.is_number_word(&w), false)
+                        // a number word: the running library says so, or the independent spellers use it to write numbers
+                        // (`hundreds`, `thousand` ...) — the library's own answer must not be the only witness
+                        (api.is_number_word(&w) || ls.lexicon("en").speller_words.binary_search(&w).is_ok(), false)
                     }
                 }
             }
@@ -156,7 +158,7 @@ pub fn run(ctx: &Ctx) -> Outcome {
     if !ctx.quick() {
         super::legs::fuzz_leg(ctx, &mut rep, 45);
     }
-    let rule = "cases = every English text of 1..4 (thorough 1..5) words over a 19-word alphabet (one word per grammar class, `o`, `O`, `a`) that contains an o (counter exhaustive_small_alphabet_texts_with_o), and English texts of 1..9 tokens over {o, O, number words, fillers, linking words, punctuation} joined by ASCII or Unicode whitespace; for each o the nearest non-whitespace neighbours are classified by the running library (is it accepted on a fresh builder?); the text with qualifying o -> zero and other o -> filler must give identical occurrences at thresholds 0,5,10; texts in which an o has only other o's as number-like neighbours are skipped (circular); non-trivial = text containing a judged o";
+    let rule = "cases = every English text of 1..4 (thorough 1..5) words over a 19-word alphabet (one word per grammar class, `o`, `O`, `a`) that contains an o (counter exhaustive_small_alphabet_texts_with_o), and English texts of 1..9 tokens over {o, O, number words, fillers, linking words, punctuation} joined by ASCII or Unicode whitespace; for each o the nearest non-whitespace neighbours are classified as number words when the running library accepts them on a fresh builder or the independent English speller uses them; the text with qualifying o -> zero and other o -> filler must give identical occurrences at thresholds 0,5,10; texts in which an o has only other o's as number-like neighbours are skipped (circular); non-trivial = text containing a judged o";
     finish(ctx, rep, rule, &["'is a number word' is asked of the running library through LangInterpreter::apply on a fresh builder"], vec![])
 }
 
